@@ -4,6 +4,7 @@ import (
 	"fmt"
 	"go/token"
 	"go/types"
+	"regexp"
 	"sort"
 	"strconv"
 	"strings"
@@ -25,7 +26,28 @@ type errLayout struct{ why string }
 
 func layFail(f string, a ...any) { panic(errLayout{fmt.Sprintf(f, a...)}) }
 
+// mergeShiftRuns: adjacent single-byte segments byte(v>>56) ... byte(v) are be64(v)
+// (4 / 2 bytes: be32 / be16; reverse order: little endian).
+func mergeShiftRuns(ss []seg) []seg {
+	for i := 0; i < len(ss); i++ {
+		for _, w := range []int{8, 4, 2} {
+			if i+w > len(ss) {
+				continue
+			}
+			v, enc, ok := shiftRun(func(k int) (string, int, int) { return ss[i+k].s, k, ss[i+k].n }, w)
+			if !ok {
+				continue
+			}
+			merged := seg{fmt.Sprintf("%s%d(%s)", enc, w*8, v), w}
+			ss = append(append(append([]seg(nil), ss[:i]...), merged), ss[i+w:]...)
+			break
+		}
+	}
+	return ss
+}
+
 func joinSegs(ss []seg) string {
+	ss = mergeShiftRuns(ss)
 	var out []string
 	for _, s := range ss {
 		out = append(out, s.s)
@@ -132,6 +154,8 @@ func lay(t *Term) []seg {
 			w := strings.TrimPrefix(methodOf(t.Name), "AppendUint")
 			n, _ := strconv.Atoi(w)
 			return append(append([]seg(nil), lay(t.Args[1])...), seg{"le" + w + "(" + t.Args[2].Key() + ")", n / 8})
+		case t.Name == "byte" && len(t.Args) == 1:
+			return []seg{{"byte(" + t.Args[0].Key() + ")", 1}}
 		case strings.HasPrefix(t.Name, "be") || strings.HasPrefix(t.Name, "le"):
 			if n, err := strconv.Atoi(t.Name[2:]); err == nil && len(t.Args) == 1 {
 				return []seg{{t.Name + "(" + t.Args[0].Key() + ")", n / 8}}
@@ -319,6 +343,22 @@ func layBuffer(t *Term) []seg {
 		}
 	}
 	sort.Slice(cells, func(i, j int) bool { return cells[i].off < cells[j].off })
+	// hand-written integer encodings: 8 (4, 2) adjacent single bytes byte(v>>56) ... byte(v)
+	// are be64(v) (reverse order: le64(v))
+	for i := 0; i < len(cells); i++ {
+		for _, w := range []int{8, 4, 2} {
+			if i+w > len(cells) {
+				continue
+			}
+			v, enc, ok := shiftRun(func(k int) (string, int, int) { return cells[i+k].s.s, cells[i+k].off, cells[i+k].s.n }, w)
+			if !ok {
+				continue
+			}
+			merged := cell{seg{fmt.Sprintf("%s%d(%s)", enc, w*8, v), w}, cells[i].off}
+			cells = append(append(append([]cell(nil), cells[:i]...), merged), cells[i+w:]...)
+			break
+		}
+	}
 	var out []seg
 	pos := 0
 	for _, c := range cells {
@@ -332,6 +372,54 @@ func layBuffer(t *Term) []seg {
 		out = append(out, seg{fmt.Sprintf("zero(%d)", size-pos), size - pos})
 	}
 	return out
+}
+
+var shiftByteRe = regexp.MustCompile(`^byte\((?:uint8|byte)\(\((.+) >> (\d+)\)\)\)$`)
+var plainByteRe = regexp.MustCompile(`^byte\((?:uint8|byte)\((.+)\)\)$`)
+
+// shiftRun: do the w single-byte segments starting at get(0) spell v >> 8(w-1), ..., v >> 0
+// at consecutive offsets (big endian) or the reverse (little endian)?
+func shiftRun(get func(k int) (s string, off int, n int), w int) (v, enc string, ok bool) {
+	shifts := make([]int, w)
+	for k := 0; k < w; k++ {
+		s, off, n := get(k)
+		_, off0, _ := get(0)
+		if n != 1 || off != off0+k {
+			return "", "", false
+		}
+		var val string
+		var sh int
+		if m := shiftByteRe.FindStringSubmatch(s); m != nil {
+			val = m[1]
+			sh, _ = strconv.Atoi(m[2])
+		} else if m := plainByteRe.FindStringSubmatch(s); m != nil {
+			val, sh = m[1], 0
+		} else {
+			return "", "", false
+		}
+		if k == 0 {
+			v = val
+		} else if val != v {
+			return "", "", false
+		}
+		shifts[k] = sh
+	}
+	be, le := true, true
+	for k := 0; k < w; k++ {
+		if shifts[k] != 8*(w-1-k) {
+			be = false
+		}
+		if shifts[k] != 8*k {
+			le = false
+		}
+	}
+	switch {
+	case be:
+		return v, "be", true
+	case le:
+		return v, "le", true
+	}
+	return "", "", false
 }
 
 // laySymbolicBuffer: writes (oldest first) at symbolic offsets.  Accepted shape: the
@@ -466,7 +554,7 @@ func layoutRule(c *Ctx, rule string, names []string) {
 	for _, name := range names {
 		fn := c.Func(hostTypes, name)
 		o := c.Ob(rule, name+": layout equals the pinned format "+c17Pinned[name])
-		paths := c.Paths(fn, PO{Params: c17Params[name], OnlyInline: noInline})
+		paths := c.Paths(fn, PO{Params: c17Params[name], Visits: 10})
 		for _, p := range paths {
 			o.Paths++
 			o.Sites++
@@ -509,7 +597,7 @@ func propC17(c *Ctx) {
 		fn := c.Func(hostTypes, "GenerateNodeHash")
 		o := c.Ob("C17.R2", "GenerateNodeHash: compare<0 -> sha3(a‖b); compare>=0 -> sha3(b‖a); outcomes exhaustive")
 		seen := map[string]bool{}
-		for _, p := range c.Paths(fn, PO{Params: []string{"a", "b"}, OnlyInline: noInline}) {
+		for _, p := range c.Paths(fn, PO{Params: []string{"a", "b"}, Visits: 10}) {
 			o.Paths++
 			o.Facts += p.NFacts()
 			if p.Panic || len(p.Ret) != 1 {
@@ -583,7 +671,7 @@ func propC17(c *Ctx) {
 		// fold
 		fr := c.Func(hostTypes, "GenerateRootHashFromProofs")
 		o2 := c.Ob("C17.R2", "GenerateRootHashFromProofs: left fold of GenerateNodeHash over proofs[0..n) from the leaf")
-		for _, p := range c.Paths(fr, PO{Params: []string{"data", "proofs"}, OnlyInline: noInline, Visits: 4}) {
+		for _, p := range c.Paths(fr, PO{Params: []string{"data", "proofs"}, Visits: 4}) {
 			o2.Paths++
 			o2.Facts += p.NFacts()
 			if p.Panic || len(p.Ret) != 1 {
@@ -638,6 +726,15 @@ func propC17(c *Ctx) {
 				case SIface:
 					o.Fail(c.W.Pos(s.Pos), "interface call "+s.Callee+" in a derivation function", nil)
 				case SStatic:
+					// module helpers are examined through Reach (their own sites are in this list);
+					// methods of a bytes.Buffer / binary.Write act on a buffer the function owns (the
+					// path check below shows the result depends on the parameters only)
+					if s.Target != nil && s.Target.Blocks != nil {
+						continue
+					}
+					if strings.HasPrefix(s.Callee, "(*bytes.Buffer).") || s.Callee == "encoding/binary.Write" {
+						continue
+					}
 					if !isPure(s.Callee) && !containsAny(s.Callee, derivationFns) && !strings.HasPrefix(s.Callee, "builtin.") {
 						o.Fail(c.W.Pos(s.Pos), "call of "+s.Callee+" (not in the pure table)", nil)
 					}
@@ -658,7 +755,7 @@ func propC17(c *Ctx) {
 					}
 				}
 			}
-			for _, p := range c.Paths(fn, PO{Params: c17Params[name], OnlyInline: noInline, Visits: 3}) {
+			for _, p := range c.Paths(fn, PO{Params: c17Params[name], Visits: 10}) {
 				o.Paths++
 				if p.Panic || len(p.Ret) != 1 {
 					continue
@@ -702,7 +799,9 @@ func checkParamImmutable(c *Ctx, o *Obl, fn *ssa.Function) {
 	}
 	readOnly := func(name string) bool {
 		switch name {
-		case "golang.org/x/crypto/sha3.Sum256", "bytes.Compare", "bytes.Equal", "builtin.len", "builtin.cap", "encoding/hex.EncodeToString":
+		case "golang.org/x/crypto/sha3.Sum256", "bytes.Compare", "bytes.Equal", "builtin.len", "builtin.cap", "encoding/hex.EncodeToString",
+			"(*bytes.Buffer).Write", "(*bytes.Buffer).WriteString", "bytes.NewReader", "encoding/binary.Write":
+			// (*bytes.Buffer).Write copies its argument into the buffer's own storage
 			return true
 		}
 		return containsAny(name, derivationFns) // checked by their own obligation
